@@ -244,15 +244,19 @@ def get_reuse_info(
     copyright_prefix = (
         copyright_prefix if copyright_prefix is not None else "spdx"
     )
+    # Surrounding whitespace is never part of a value that is read back from a
+    # header, so it must not be part of a value that is written into one.
     copyright_lines = {
-        make_copyright_line(item, year=year, copyright_prefix=copyright_prefix)
+        make_copyright_line(
+            item.strip(), year=year, copyright_prefix=copyright_prefix
+        )
         for item in copyrights
     }
 
     return ReuseInfo(
         spdx_expressions=set(licenses),
         copyright_lines=copyright_lines,
-        contributor_lines=set(contributors),
+        contributor_lines={item.strip() for item in contributors},
     )
 
 
